@@ -21,17 +21,37 @@ func isYieldType(t types.Type) bool {
 	return ok && b.Kind() == types.Bool
 }
 
-// yieldValues: parameters and free variables of yield type in fn.
+// yieldValues: parameters and free variables of yield type in fn, the cells
+// they are spilled to when captured by reference, and loads of such cells.
 func yieldValues(fn *ssa.Function) map[ssa.Value]bool {
 	out := map[ssa.Value]bool{}
+	cells := map[ssa.Value]bool{}
 	for _, p := range fn.Params {
 		if isYieldType(p.Type()) {
 			out[p] = true
+			for _, r := range referrersOf(p) {
+				if st, ok := r.(*ssa.Store); ok && st.Val == p {
+					if al, ok := st.Addr.(*ssa.Alloc); ok {
+						cells[al] = true
+					}
+				}
+			}
 		}
 	}
 	for _, fv := range fn.FreeVars {
 		if isYieldType(fv.Type()) {
 			out[fv] = true
+		}
+		if pt, ok := fv.Type().Underlying().(*types.Pointer); ok && isYieldType(pt.Elem()) {
+			cells[fv] = true
+		}
+	}
+	for c := range cells {
+		out[c] = true
+		for _, r := range referrersOf(c) {
+			if ld, ok := r.(*ssa.UnOp); ok && ld.Op == token.MUL {
+				out[ld] = true
+			}
 		}
 	}
 	return out
